@@ -24,6 +24,7 @@ ASSUMPTIONS = [
     "slice matching is greedy earliest-occurrence (sound for 'non-overlapping slices in stream order')",
 ]
 GATES = ["frames_checked", "delivered_after_fault", "plans_enumerated"]
+GATES_ZERO = ["budget_exceeded"]
 
 
 def make_stream(rng, small=False):
@@ -70,7 +71,8 @@ def run_case(ctx, data, plan, mode, pseed, foreign=True, label="gen"):
 
     libs = common.lib_errors()
     ds = doubles.RecordingStream(data, {int(k): v for k, v in plan.items()},
-                                 rng=random.Random(pseed), record_callers=True)
+                                 rng=random.Random(pseed), record_callers=True,
+                                 budget=4 * len(data) + 64 + 8 * len(plan))
     rdr = RTCMReader(ds, validate=1, quitonerror=mode, errorhandler=(lambda e: None))
     delivered = []
     after_fault = 0
@@ -83,6 +85,9 @@ def run_case(ctx, data, plan, mode, pseed, foreign=True, label="gen"):
         except libs:
             ctx.hit("lib_exceptions")
             continue
+        except doubles.BudgetExceeded:  # non-termination is C02/C04's subject; here: inconclusive
+            ctx.hit("budget_exceeded")
+            break
         except Exception as e:  # foreign exception: C04's business, only counted here
             ctx.hit("foreign_exception:" + type(e).__name__)
             if ds.exhausted:
@@ -158,12 +163,14 @@ def count_calls(data):
     """Number of read calls of a fault-free run (to enumerate fault positions)."""
     from pyrtcm import RTCMReader
 
-    ds = doubles.RecordingStream(data)
+    ds = doubles.RecordingStream(data, budget=3 * len(data) + 16)
     rdr = RTCMReader(ds, validate=1, quitonerror=0)
     try:
         for _ in rdr:
             pass
     except Exception:
+        pass
+    except doubles.BudgetExceeded:  # non-termination is C02/C04's subject
         pass
     return ds.calls
 
